@@ -633,6 +633,11 @@ func RPCFreeSectors(ctx context.Context, t TransportClient, signer ContractSigne
 	var resp rhp4.RPCFreeSectorsResponse
 	if err := rhp4.ReadResponse(s, &resp); err != nil {
 		return RPCFreeSectorsResult{}, fmt.Errorf("failed to read response: %w", err)
+	} else if len(indices) > 0 && indices[0] >= numSectors {
+		// indices are sorted descending. An honest host refuses an index outside
+		// the contract; an answer to such a request must not reach the proof
+		// verifier, which indexes the host-supplied hashes by it
+		return RPCFreeSectorsResult{}, clientErrf("sector index %d exceeds contract sectors %d", indices[0], numSectors)
 	} else if !rhp4.VerifyFreeSectorsProof(resp.OldSubtreeHashes, resp.OldLeafHashes, indices, numSectors, contract.Revision.FileMerkleRoot, resp.NewMerkleRoot) {
 		return RPCFreeSectorsResult{}, clientErr("failed to verify free sectors proof", ErrInvalidProof)
 	}
